@@ -87,8 +87,9 @@ impl Epoch {
                     days_in_year -= 1.0;
                 }
             }
-            if days_in_year < 0.0 {
+            while days_in_year < 0.0 {
                 // We've underflowed the number of days in a year because of the leap years
+                // (by more than one year once more than 365 leap days have accumulated).
                 year -= 1;
                 days_in_year += DAYS_PER_YEAR_NLD;
                 // If we had incorrectly removed one day of the year in the previous loop, fix it here.
@@ -103,10 +104,15 @@ impl Epoch {
                 }
             }
             // Check for greater than or equal because the days are still zero indexed here.
-            if (days_in_year >= DAYS_PER_YEAR_NLD && !is_leap_year(year))
+            while (days_in_year >= DAYS_PER_YEAR_NLD && !is_leap_year(year))
                 || (days_in_year >= DAYS_PER_YEAR_NLD + 1.0 && is_leap_year(year))
             {
                 // We've overflowed the number of days in a year because of the leap years
+                // (by more than one year once more than 365 leap days have accumulated).
+                // The year we leave had counted its own leap day.
+                if is_leap_year(year) {
+                    days_in_year -= 1.0;
+                }
                 year += 1;
                 days_in_year -= DAYS_PER_YEAR_NLD;
             }
